@@ -335,9 +335,10 @@ Proof.
   vm_compute. discriminate.
 Qed.
 
-(* a request for a path that does not exist panics in get_key_for_path (finding D2, handled
-   under property C01); C19 is stated for requests about existing paths *)
-Theorem C19_uri_lookup_missing_file_refuted :
+(* a request for a path that does not exist fails in get_key_for_path: outcome 1, an error
+   returned to the client since /repo commit 0f41eb8 (it was an unwrap panic before: finding D2,
+   property C01); C19 is stated for requests about existing paths *)
+Theorem C19_uri_lookup_missing_file_is_error :
   exists w p st, get_document_info w p st = Panic 1.
 Proof. exists ex_w, (P ["nope.god"]), init_svc. vm_compute. reflexivity. Qed.
 
@@ -372,5 +373,5 @@ Print Assumptions C19_ex_walk_hypotheses.
 Print Assumptions C19_ex_creatable.
 Print Assumptions C19_ex_idempotent.
 Print Assumptions C19_class_lookup_without_unique_stems_refuted.
-Print Assumptions C19_uri_lookup_missing_file_refuted.
+Print Assumptions C19_uri_lookup_missing_file_is_error.
 Print Assumptions C19_root_is_file_refuted.
